@@ -103,11 +103,18 @@ func (c *c08Cmd) text(nmb int) string {
 	return line
 }
 
+// examine says whether a "select" command is sent as EXAMINE (a read-only view) rather than
+// SELECT; the model's TSelect carries the same bit.
+func (c *c08Cmd) examine() bool { return c.K == "select" && ((c.Form%2)+2)%2 == 1 }
+
 func (c *c08Cmd) textUpper(nmb int) string {
 	pick := func(opts ...string) string { return opts[((c.Form%len(opts))+len(opts))%len(opts)] }
 	switch c.K {
 	case "select":
-		return pick("SELECT ", "EXAMINE ") + c08MbName(c.Mb, nmb)
+		if c.examine() {
+			return "EXAMINE " + c08MbName(c.Mb, nmb)
+		}
+		return "SELECT " + c08MbName(c.Mb, nmb)
 	case "unselect":
 		return "UNSELECT"
 	case "close":
@@ -198,7 +205,7 @@ func (c *c08Cmd) coq() string {
 	case "append":
 		return fmt.Sprintf("TAppend %d %s", c.Mb, coqBool(c.Del))
 	case "select":
-		return fmt.Sprintf("TSelect %d", c.Mb)
+		return fmt.Sprintf("TSelect %d %s", c.Mb, coqBool(c.examine()))
 	case "unselect":
 		return "TUnselect"
 	case "close":
@@ -315,6 +322,7 @@ func (c *c08Cmd) enc(e *c08Enc) {
 	case "select":
 		e.num(1)
 		e.num(uint32(c.Mb))
+		e.boolean(c.examine())
 	case "unselect":
 		e.num(2)
 	case "close":
@@ -1431,6 +1439,10 @@ func (g *c08Gen) step() c08Cmd {
 	// guessed state, only used to keep later commands meaningful
 	switch cm.K {
 	case "select":
+		// one view in four is read-only (EXAMINE): most sessions must be able to change the mailbox
+		if cm.examine() && rng.Intn(2) == 0 {
+			cm.Form--
+		}
 		if cm.Mb < g.nmb {
 			g.sel[c] = cm.Mb
 		} else {
@@ -1480,7 +1492,7 @@ func c08RandomHistory(rng *rand.Rand, maxLen int) (nmb, nconn int, cmds []c08Cmd
 			if rng.Intn(4) == 0 {
 				mb = rng.Intn(nmb)
 			}
-			cmds = append(cmds, c08Cmd{Conn: c, K: "select", Mb: mb, Form: rng.Intn(2)})
+			cmds = append(cmds, c08Cmd{Conn: c, K: "select", Mb: mb, Form: rng.Intn(4) / 3}) // EXAMINE: one in four
 			g.sel[c] = mb
 		}
 	}
@@ -1591,10 +1603,15 @@ func runC08(h *H) {
 	}
 
 	// 2. exhaustive short suffixes over a small alphabet after a fixed prefix
-	prefix := []c08Cmd{
-		{Conn: 0, K: "append", Mb: 0}, {Conn: 1, K: "append", Mb: 0, Del: true, Form: 1}, {Conn: 0, K: "append", Mb: 0},
-		{Conn: 0, K: "select", Mb: 0}, {Conn: 1, K: "select", Mb: 0, Form: 1},
+	// both sessions SELECT (read-write views: every command of the alphabet takes effect); a second
+	// pass of depth 2 has session 1 EXAMINE instead (a read-only view next to a read-write one)
+	prefixFor := func(form1 int) []c08Cmd {
+		return []c08Cmd{
+			{Conn: 0, K: "append", Mb: 0}, {Conn: 1, K: "append", Mb: 0, Del: true, Form: 1}, {Conn: 0, K: "append", Mb: 0},
+			{Conn: 0, K: "select", Mb: 0}, {Conn: 1, K: "select", Mb: 0, Form: form1},
+		}
 	}
+	prefix := prefixFor(0)
 	var alpha []c08Cmd
 	for c := 0; c < 2; c++ {
 		alpha = append(alpha,
@@ -1621,6 +1638,8 @@ func runC08(h *H) {
 		}
 	}
 	rec(nil, depth)
+	prefix = prefixFor(1)
+	rec(nil, 2)
 
 	// 3. seeded random histories
 	n := h.Pick(260, 6000)
@@ -1645,7 +1664,22 @@ type c08Case struct {
 func c08Corpus() []c08Case {
 	ap := func(c, mb int, del bool) c08Cmd { return c08Cmd{Conn: c, K: "append", Mb: mb, Del: del} }
 	sl := func(c, mb int) c08Cmd { return c08Cmd{Conn: c, K: "select", Mb: mb} }
+	ex := func(c, mb int) c08Cmd { return c08Cmd{Conn: c, K: "select", Mb: mb, Form: 1} } // EXAMINE
 	return []c08Case{
+		// EXAMINE: a read-only view next to a read-write one; STORE / UID EXPUNGE / MOVE are refused,
+		// FETCH of a body sets nothing, EXPUNGE and CLOSE remove nothing
+		{2, 2, []c08Cmd{ap(0, 0, true), ap(0, 0, false), sl(0, 0), ex(1, 0), {Conn: 1, K: "store", Set: "1:*", Sop: 0}, {Conn: 1, K: "store", UID: true, Set: "2", Sop: 1, Silent: true},
+			{Conn: 1, K: "fetch", Set: "1:*", WFlags: true, Seen: true}, {Conn: 0, K: "noop"}, {Conn: 1, K: "expunge"}, {Conn: 1, K: "uidexpunge", Set: "1:*"}, {Conn: 1, K: "move", Set: "1", Mb: 1},
+			{Conn: 1, K: "move", UID: true, Set: "1:*", Mb: 9}, {Conn: 1, K: "copy", Set: "1:*", Mb: 1}, {Conn: 0, K: "noop"}, {Conn: 1, K: "close"}, {Conn: 0, K: "fetch", Set: "1:*", WFlags: true}}},
+		// the bit belongs to the view: EXAMINE then SELECT is read-write, SELECT then EXAMINE read-only, a failed
+		// EXAMINE leaves nothing selected, UNSELECT/CLOSE forget it; it survives IDLE..DONE
+		{2, 2, []c08Cmd{ap(0, 0, true), ap(0, 0, true), ap(0, 0, false), sl(1, 0), ex(0, 0), sl(0, 0), {Conn: 0, K: "store", Set: "3", Sop: 0}, ex(0, 0), {Conn: 0, K: "store", Set: "1", Sop: 1},
+			{Conn: 0, K: "idle"}, ap(1, 0, false), {Conn: 0, K: "done"}, {Conn: 0, K: "expunge"}, {Conn: 0, K: "uidexpunge", Set: "1"}, {Conn: 1, K: "noop"},
+			ex(0, 5), {Conn: 0, K: "store", Set: "1", Sop: 0}, ex(0, 0), {Conn: 0, K: "unselect"}, sl(0, 0), {Conn: 0, K: "move", Set: "1", Mb: 1}, {Conn: 1, K: "noop"}}},
+		// a read-only view is still told what the others do, also while idling and under a stale view
+		{2, 3, []c08Cmd{ap(0, 0, true), ap(0, 0, false), ap(0, 0, true), ex(0, 0), sl(1, 0), ex(2, 0), {Conn: 2, K: "idle"}, {Conn: 1, K: "expunge"}, ap(1, 0, false),
+			{Conn: 0, K: "fetch", Set: "1:*", Seen: true}, {Conn: 0, K: "store", Set: "1:*", Sop: 0}, {Conn: 0, K: "search"}, {Conn: 0, K: "expunge"}, {Conn: 0, K: "fetch", Set: "1:*", WFlags: true},
+			{Conn: 2, K: "done"}, {Conn: 2, K: "close"}, {Conn: 1, K: "noop"}}},
 		// MOVE: explicit EXPUNGE responses and queued ones (duplicates, wrong numbers, 0)
 		{2, 1, []c08Cmd{ap(0, 0, false), ap(0, 0, false), ap(0, 0, false), sl(0, 0), {Conn: 0, K: "move", Set: "1", Mb: 1}}},
 		{2, 1, []c08Cmd{ap(0, 0, false), ap(0, 0, false), ap(0, 0, false), sl(0, 0), {Conn: 0, K: "move", Set: "3", Mb: 1}, {Conn: 0, K: "fetch", Set: "1:*"}}},
